@@ -251,3 +251,405 @@ Proof.
     + apply (q_cs Q); auto.
   - apply mq_ne. apply (q_ne Q).
 Qed.
+
+(* ---- scrub ---- *)
+Lemma scrub_kind o a : akind (scrub_act o a) = akind a.
+Proof. destruct a; auto. Qed.
+Lemma scrub_obj o a : act_obj (scrub_act o a) = act_obj a.
+Proof. destruct a; auto. Qed.
+Lemma scrub_nonconn o a : akind a <> KConn -> scrub_act o a = a.
+Proof. destruct a; cbn; auto. congruence. Qed.
+Lemma scrub_ne o a : act_ne a -> act_ne (scrub_act o a).
+Proof. destruct a as [| | |c [|u r]]; cbn; auto. Qed.
+Lemma scrub_ends o a x : In x (act_end_ids (scrub_act o a)) -> In x (act_end_ids a) /\ x <> o.
+Proof.
+  destruct a; cbn [scrub_act act_end_ids]; try (intros []).
+  intros H. apply in_flat_map in H. destruct H as [u [Hu Hx]].
+  apply in_map_iff in Hu. destruct Hu as [u0 [E Hu0]]. subst u. cbn [snd fst] in Hx.
+  destruct (snd u0) as [|o0] eqn:Es; cbn [scrub_end end_ids] in Hx; [destruct Hx|].
+  destruct (Nat.eqb o o0) eqn:E0; cbn [end_ids] in Hx; [destruct Hx|].
+  destruct Hx as [<-|[]]. apply Nat.eqb_neq in E0. split; [|congruence].
+  apply in_flat_map. exists u0. split; auto. rewrite Es. cbn; auto.
+Qed.
+
+Lemma QOK_scrub H CS qk q o :
+  QOK H CS qk q -> (forall a, In a q -> qk (akind a) -> act_obj a <> o) ->
+  QOK (remove_nat o H) CS qk (map (scrub_act o) q).
+Proof.
+  intros Q Hno. constructor.
+  - intros a' Ha Hk. apply in_map_iff in Ha. destruct Ha as [a [<- Ha]].
+    rewrite scrub_kind in Hk. rewrite scrub_obj. apply remove_nat_In. split.
+    + apply (q_obj Q); auto.
+    + apply Hno; auto.
+  - intros a' x Ha Hx. apply in_map_iff in Ha. destruct Ha as [a [<- Ha]].
+    apply scrub_ends in Hx. destruct Hx as [Hx Nx].
+    destruct (q_ends Q _ _ Ha Hx). split; auto. apply remove_nat_In; auto.
+  - rewrite map_map. erewrite map_ext; [apply (q_nd Q)|]. intros; apply scrub_obj.
+  - intros a' Ha. apply in_map_iff in Ha. destruct Ha as [a [<- Ha]].
+    rewrite scrub_kind, scrub_obj. apply (q_cs Q); auto.
+  - intros a' Ha. apply in_map_iff in Ha. destruct Ha as [a [<- Ha]].
+    apply scrub_ne, (q_ne Q); auto.
+Qed.
+
+Lemma QOK_weaken H CS (qk qk' : kind -> Prop) q :
+  (forall k, qk' k -> qk k) -> QOK H CS qk q -> QOK H CS qk' q.
+Proof. intros Hk Q. constructor; try apply Q. intros a Ha K. apply (q_obj Q); auto. Qed.
+
+Lemma QOK_nil H CS qk : QOK H CS qk [].
+Proof. constructor; cbn; try tauto. constructor. Qed.
+
+(* ------------------------------------------------------------------------------------------ *)
+(* the state invariant, parameterised by                                                      *)
+(*   qk: kinds of queued actions whose object is allocated,                                   *)
+(*   ck: kinds of queued actions that keep an otherwise unregistered object reachable         *)
+(* ------------------------------------------------------------------------------------------ *)
+Record W (qk ck : kind -> Prop) (s : st) : Prop := {
+  w_q : QOK (heap s) (cset s) qk (queue s);
+  w_att : forall c w o, In (c, w, o) (attached s) ->
+            In c (heap s) /\ In o (heap s) /\ In c (cset s) /\ ~ In o (cset s);
+  w_act : incl (active s) (heap s);
+  w_acn : incl (aconns s) (heap s);
+  w_nd_act : NoDup (active s);
+  w_nd_acn : NoDup (aconns s);
+  w_cs : forall x, In x (cset s) -> In x (heap s) \/ In x (freed s);
+  w_bad : bad s = [];
+  w_heap_nd : NoDup (heap s);
+  w_heap_fr : forall x, In x (heap s) -> ~ In x (freed s);
+  w_cover : forall x, In x (heap s) -> In x (active s) \/ In x (aconns s) \/
+              exists a, In a (queue s) /\ act_obj a = x /\ ck (akind a) }.
+
+Definition Inv := W allK pendK.
+Definition Mid := W nonRem nonRem.
+
+Lemma W_weaken (qk qk' ck ck' : kind -> Prop) s :
+  (forall k, qk' k -> qk k) -> (forall k, ck k -> ck' k) -> W qk ck s -> W qk' ck' s.
+Proof.
+  intros Hq Hc M. constructor; try apply M.
+  - apply QOK_weaken with qk; auto. apply M.
+  - intros x Hx. destruct (w_cover M x Hx) as [?|[?|[a [? [? ?]]]]]; auto.
+    right; right. exists a; auto.
+Qed.
+
+Lemma W_cover_change (qk ck ck' : kind -> Prop) s :
+  W qk ck s ->
+  (forall a, In a (queue s) -> ck (akind a) ->
+     ck' (akind a) \/ In (act_obj a) (active s) \/ In (act_obj a) (aconns s)) ->
+  W qk ck' s.
+Proof.
+  intros M Hc. constructor; try apply M.
+  intros x Hx. destruct (w_cover M x Hx) as [?|[?|[a [H1 [H2 H3]]]]]; auto.
+  destruct (Hc a H1 H3) as [?|[?|?]]; subst; auto.
+  right; right. exists a; auto.
+Qed.
+
+Lemma deref_in x s : In x (heap s) -> deref x s = s.
+Proof. intros H. unfold deref. apply mem_In in H. rewrite H. reflexivity. Qed.
+
+Ltac sproj := cbn [heap cset active aconns attached queue freed bad trans alive].
+
+(* ------------------------------------------------------------------------------------------ *)
+(* processActions                                                                             *)
+(* ------------------------------------------------------------------------------------------ *)
+Lemma sort_derefs_id s : (forall a, In a (queue s) -> In (act_obj a) (heap s)) -> sort_derefs s = s.
+Proof.
+  unfold sort_derefs. generalize (queue s) as l. induction l as [|a r IH]; cbn [fold_left]; intros H; auto.
+  rewrite deref_in by (apply H; left; auto). apply IH. intros; apply H; right; auto.
+Qed.
+
+(* ---- pass 1 ---- *)
+Definition mac (o : nat) := fun (q : list act) (t : nat * bool * nat) =>
+  match t with (c, w, o') => if Nat.eqb o o' then modify_conn_q q c w (EObst o) true else q end.
+
+Lemma mac_QOK H CS qk o : In o H -> ~ In o CS -> forall att q,
+  QOK H CS qk q -> (forall c w o', In (c, w, o') att -> In c H /\ In c CS) ->
+  QOK H CS qk (fold_left (mac o) att q).
+Proof.
+  intros Ho No. induction att as [|[[c w] o'] r IH]; cbn [fold_left]; intros q Q Ha; auto.
+  apply IH; [|intros; eapply Ha; right; eauto].
+  unfold mac. destruct (Nat.eqb o o'); auto.
+  destruct (Ha c w o') as [H1 H2]; [left; auto|].
+  apply QOK_modify; auto. intros x [<-|[]]; auto.
+Qed.
+
+Lemma mac_nonconn o a : akind a <> KConn -> forall att q, In a q -> In a (fold_left (mac o) att q).
+Proof.
+  intros NK. induction att as [|[[c w] o'] r IH]; cbn [fold_left]; intros q Hq; auto.
+  apply IH. unfold mac. destruct (Nat.eqb o o'); auto. apply mq_in_nonconn; auto.
+Qed.
+
+Lemma mac_pres o : forall att q a, In a q ->
+  exists a', In a' (fold_left (mac o) att q) /\ akind a' = akind a /\ act_obj a' = act_obj a.
+Proof.
+  induction att as [|[[c w] o'] r IH]; cbn [fold_left]; intros q a Hq; eauto.
+  assert (exists a1, In a1 (mac o q (c, w, o')) /\ akind a1 = akind a /\ act_obj a1 = act_obj a) as [a1 [H1 [H2 H3]]].
+  { unfold mac. destruct (Nat.eqb o o'); eauto. apply mq_in_pres; auto. }
+  destruct (IH _ _ H1) as [a' [G1 [G2 G3]]]. exists a'. split; auto. split; congruence.
+Qed.
+
+Lemma pass1_move_eq s o : In o (heap s) ->
+  pass1_one true s (AMove o) =
+  mkst (heap s) (cset s) (remove_nat o (active s)) (aconns s)
+       (filter (fun t => negb (Nat.eqb o (snd t))) (attached s))
+       (fold_left (mac o) (attached s) (queue s)) (freed s) (bad s) (trans s) (alive s).
+Proof. intros H. unfold pass1_one. rewrite deref_in by auto. reflexivity. Qed.
+
+Lemma pass1_remove_eq s o : In o (heap s) ->
+  pass1_one true s (ARemove o) =
+  mkst (remove_nat o (heap s)) (cset s) (remove_nat o (remove_nat o (active s))) (remove_nat o (aconns s))
+       (filter (fun t => negb (Nat.eqb o (snd t))) (attached s))
+       (map (scrub_act o) (queue s)) (o :: freed s) (bad s) (trans s) (alive s).
+Proof.
+  intros H. unfold pass1_one. rewrite deref_in by auto. unfold free_obj. sproj.
+  apply mem_In in H. rewrite H. reflexivity.
+Qed.
+
+Lemma obst_not_cset qk ck s a :
+  W qk ck s -> In a (queue s) -> akind a <> KConn -> ~ In (act_obj a) (cset s).
+Proof. intros M Ha NK Hc. apply NK. apply (q_cs (w_q M)); auto. Qed.
+
+Lemma pass1_move_W s o : Mid s -> In (AMove o) (queue s) -> Mid (pass1_one true s (AMove o)).
+Proof.
+  intros M Hin.
+  assert (Ho : In o (heap s)) by (apply (q_obj (w_q M) (AMove o)); auto; cbn; discriminate).
+  assert (No : ~ In o (cset s)) by (apply (obst_not_cset M Hin); cbn; discriminate).
+  rewrite pass1_move_eq by auto. constructor; sproj; try apply M.
+  - apply mac_QOK; auto. apply M.
+    intros c w o' H. destruct (w_att M _ _ _ H) as (?&?&?&?); auto.
+  - intros c w o' H. apply filter_In in H. destruct H as [H _]. apply (w_att M); auto.
+  - intros x Hx. apply remove_nat_In in Hx. apply (w_act M); tauto.
+  - apply remove_nat_NoDup, M.
+  - intros x Hx. destruct (Nat.eq_dec x o) as [->|Nx].
+    + right; right. exists (AMove o). split; [|split; auto; cbn; discriminate].
+      apply mac_nonconn; auto. cbn; discriminate.
+    + destruct (w_cover M x Hx) as [H|[H|[a [H1 [H2 H3]]]]].
+      * left. apply remove_nat_In; auto.
+      * auto.
+      * right; right. destruct (mac_pres o (attached s) _ _ H1) as [a' [G1 [G2 G3]]].
+        exists a'. rewrite G2, G3. auto.
+Qed.
+
+Lemma pass1_remove_W s o :
+  Mid s -> In (ARemove o) (queue s) -> In o (heap s) -> Mid (pass1_one true s (ARemove o)).
+Proof.
+  intros M Hin Ho.
+  assert (No : ~ In o (cset s)) by (apply (obst_not_cset M Hin); cbn; discriminate).
+  rewrite pass1_remove_eq by auto. constructor; sproj.
+  - apply QOK_scrub; [apply M|]. intros a Ha K E.
+    assert (a = ARemove o) by (apply (nodup_map_inj act_obj (queue s)); auto; apply M).
+    subst a. apply K; reflexivity.
+  - intros c w o' H. apply filter_In in H. destruct H as [H Ne]. cbn [snd] in Ne.
+    apply negb_true_iff, Nat.eqb_neq in Ne.
+    destruct (w_att M _ _ _ H) as (H1&H2&H3&H4). repeat split; auto; apply remove_nat_In; split; auto.
+    intros ->; auto.
+  - intros x Hx. apply remove_nat_In in Hx. destruct Hx as [Hx Nx]. apply remove_nat_In in Hx.
+    apply remove_nat_In. split; auto. apply (w_act M); tauto.
+  - intros x Hx. apply remove_nat_In in Hx. destruct Hx as [Hx Nx].
+    apply remove_nat_In. split; auto. apply (w_acn M); tauto.
+  - apply remove_nat_NoDup, remove_nat_NoDup, M.
+  - apply remove_nat_NoDup, M.
+  - intros x Hx. destruct (Nat.eq_dec x o) as [->|Nx]; [right; left; auto|].
+    destruct (w_cs M x Hx); [left; apply remove_nat_In; auto | right; right; auto].
+  - apply M.
+  - apply remove_nat_NoDup, M.
+  - intros x Hx. apply remove_nat_In in Hx. destruct Hx as [Hx Nx].
+    intros [E|F]; [congruence|]. apply (w_heap_fr M x); auto.
+  - intros x Hx. apply remove_nat_In in Hx. destruct Hx as [Hx Nx].
+    destruct (w_cover M x Hx) as [H|[H|[a [H1 [H2 H3]]]]].
+    + left. apply remove_nat_In; split; auto. apply remove_nat_In; auto.
+    + right; left. apply remove_nat_In; auto.
+    + right; right. exists (scrub_act o a). rewrite scrub_kind, scrub_obj. split; auto.
+      apply in_map; auto.
+Qed.
+
+Lemma pass1_loop : forall r s,
+  Mid s ->
+  (forall a, In a r -> akind a = KMove \/ akind a = KRemove -> In (act_obj a) (heap s)) ->
+  NoDup (map act_obj r) ->
+  (forall a, In a r -> akind a <> KConn -> In a (queue s)) ->
+  Mid (fold_left (pass1_one true) r s).
+Proof.
+  induction r as [|a r IH]; cbn [fold_left]; intros s M H1 ND H3; auto.
+  cbn [map] in ND. apply NoDup_cons_iff in ND. destruct ND as [N1 N2].
+  assert (H1r : forall a, In a r -> akind a = KMove \/ akind a = KRemove -> In (act_obj a) (heap s))
+    by (intros; apply H1; auto; right; auto).
+  assert (H3r : forall a, In a r -> akind a <> KConn -> In a (queue s))
+    by (intros; apply H3; auto; right; auto).
+  destruct a as [o|o|o|c ups].
+  - apply IH; auto.
+  - assert (Hq : In (AMove o) (queue s)) by (apply H3; [left; auto|cbn; discriminate]).
+    assert (Ho : In o (heap s)) by (apply (H1 (AMove o)); [left; auto|cbn; auto]).
+    apply IH; auto.
+    + apply pass1_move_W; auto.
+    + rewrite pass1_move_eq by auto. sproj. auto.
+    + rewrite pass1_move_eq by auto. sproj. intros a Ha NK. apply mac_nonconn; auto.
+  - assert (Hq : In (ARemove o) (queue s)) by (apply H3; [left; auto|cbn; discriminate]).
+    assert (Ho : In o (heap s)) by (apply (H1 (ARemove o)); [left; auto|cbn; auto]).
+    apply IH; auto.
+    + apply pass1_remove_W; auto.
+    + rewrite pass1_remove_eq by auto. sproj. intros a Ha K. apply remove_nat_In. split; auto.
+      intros E. apply N1. cbn [act_obj]. rewrite <- E. apply in_map; auto.
+    + rewrite pass1_remove_eq by auto. sproj. intros a Ha NK.
+      rewrite <- (scrub_nonconn o NK). apply in_map; auto.
+  - apply IH; auto.
+Qed.
+
+(* ---- pass 2 ---- *)
+Lemma W_active_add qk ck s o : W qk ck s -> In o (heap s) ->
+  W qk ck (mkst (heap s) (cset s) (if mem o (active s) then active s else o :: active s) (aconns s)
+                (attached s) (queue s) (freed s) (bad s) (trans s) (alive s)).
+Proof.
+  intros M Ho. constructor; sproj; try apply M.
+  - destruct (mem o (active s)); [apply M|]. intros x [<-|Hx]; auto. apply (w_act M); auto.
+  - destruct (mem o (active s)) eqn:E; [apply M|]. constructor; [apply mem_nIn; auto|apply M].
+  - intros x Hx. destruct (w_cover M x Hx) as [H|[H|H]]; auto.
+    left. destruct (mem o (active s)); auto. right; auto.
+Qed.
+
+Lemma pass2_one_W ck s a : W nonRem ck s -> In a (queue s) ->
+  W nonRem ck (pass2_one s a) /\ queue (pass2_one s a) = queue s /\
+  incl (active s) (active (pass2_one s a)) /\
+  (akind a = KAdd \/ akind a = KMove -> In (act_obj a) (active (pass2_one s a))).
+Proof.
+  intros M Ha.
+  assert (G : forall o, In o (heap s) -> act_obj a = o ->
+     let s' := mkst (heap s) (cset s) (if mem o (active s) then active s else o :: active s) (aconns s)
+                (attached s) (queue s) (freed s) (bad s) (trans s) (alive s) in
+     W nonRem ck s' /\ queue s' = queue s /\ incl (active s) (active s') /\
+     (akind a = KAdd \/ akind a = KMove -> In (act_obj a) (active s'))).
+  { intros o Ho E s'. split; [apply W_active_add; auto|]. split; [reflexivity|]. subst s'; sproj.
+    destruct (mem o (active s)) eqn:Em.
+    - split; [apply incl_refl|]. intros _. rewrite E. apply mem_In; auto.
+    - split; [apply incl_tl, incl_refl|]. intros _. rewrite E. left; auto. }
+  destruct a as [o|o|o|c ups]; cbn [pass2_one].
+  - assert (Ho : In o (heap s)) by (apply (q_obj (w_q M) (AAdd o)); auto; cbn; discriminate).
+    rewrite deref_in by auto. apply G; auto.
+  - assert (Ho : In o (heap s)) by (apply (q_obj (w_q M) (AMove o)); auto; cbn; discriminate).
+    rewrite deref_in by auto. apply G; auto.
+  - repeat split; auto using incl_refl. cbn; intros [|]; discriminate.
+  - repeat split; auto using incl_refl. cbn; intros [|]; discriminate.
+Qed.
+
+Lemma pass2_loop ck : forall r s, W nonRem ck s -> incl r (queue s) ->
+  let s' := fold_left pass2_one r s in
+  W nonRem ck s' /\ queue s' = queue s /\ incl (active s) (active s') /\
+  (forall a, In a r -> akind a = KAdd \/ akind a = KMove -> In (act_obj a) (active s')).
+Proof.
+  induction r as [|a r IH]; cbn [fold_left]; intros s M Hr.
+  - repeat split; auto using incl_refl. intros a [].
+  - destruct (@pass2_one_W ck s a M) as (M1 & Q1 & A1 & B1); [apply Hr; left; auto|].
+    destruct (IH (pass2_one s a) M1) as (M2 & Q2 & A2 & B2).
+    { rewrite Q1. intros x Hx. apply Hr; right; auto. }
+    split; auto. split; [congruence|]. split; [eapply incl_tran; eauto|].
+    intros b [<-|Hb] K; auto.
+Qed.
+
+(* ---- pass 3 ---- *)
+Lemma update_end_W ck c s u : W nonRem ck s -> In c (heap s) -> In c (cset s) ->
+  (forall o, In o (end_ids (snd u)) -> In o (heap s) /\ ~ In o (cset s)) ->
+  let s' := update_end c s u in
+  W nonRem ck s' /\ queue s' = queue s /\ heap s' = heap s /\ cset s' = cset s /\
+  incl (aconns s) (aconns s') /\ In c (aconns s').
+Proof.
+  intros M Hc Cc He s'.
+  assert (E : deref_end (snd u) s = s).
+  { destruct (snd u) as [|o]; cbn [deref_end]; auto. apply deref_in. apply He. cbn; auto. }
+  subst s'. unfold update_end. rewrite E. sproj.
+  split; [|split; [reflexivity|split; [reflexivity|split; [reflexivity|]]]].
+  - constructor; sproj; try apply M.
+    + intros c' w' o' H.
+      assert (G : In (c', w', o') (attached s) -> In c' (heap s) /\ In o' (heap s) /\ In c' (cset s) /\ ~ In o' (cset s)).
+      { apply (w_att M). }
+      destruct (snd u) as [|o] eqn:Es.
+      * apply filter_In in H. tauto.
+      * destruct H as [H|H].
+        -- inversion H; subst. destruct (He o'); cbn; auto.
+        -- apply filter_In in H. tauto.
+    + destruct (mem c (aconns s)); [apply M|]. intros x [<-|Hx]; auto. apply (w_acn M); auto.
+    + destruct (mem c (aconns s)) eqn:Em; [apply M|]. constructor; [apply mem_nIn; auto|apply M].
+    + intros x Hx. destruct (w_cover M x Hx) as [H|[H|H]]; auto.
+      right; left. destruct (mem c (aconns s)); auto. right; auto.
+  - destruct (mem c (aconns s)) eqn:Em.
+    + split; [apply incl_refl|apply mem_In; auto].
+    + split; [apply incl_tl, incl_refl|left; auto].
+Qed.
+
+Lemma update_end_loop ck c : forall ups s, W nonRem ck s -> In c (heap s) -> In c (cset s) ->
+  (forall u o, In u ups -> In o (end_ids (snd u)) -> In o (heap s) /\ ~ In o (cset s)) ->
+  let s' := fold_left (update_end c) ups s in
+  W nonRem ck s' /\ queue s' = queue s /\ heap s' = heap s /\ cset s' = cset s /\
+  incl (aconns s) (aconns s') /\ (ups <> [] -> In c (aconns s')).
+Proof.
+  induction ups as [|u r IH]; cbn [fold_left]; intros s M Hc Cc He.
+  - repeat split; auto using incl_refl. congruence.
+  - destruct (@update_end_W ck c s u M Hc Cc) as (M1 & Q1 & H1 & C1 & A1 & B1).
+    { intros o Ho. apply (He u); auto. left; auto. }
+    destruct (IH (update_end c s u) M1) as (M2 & Q2 & H2 & C2 & A2 & B2).
+    { rewrite H1; auto. } { rewrite C1; auto. }
+    { rewrite H1, C1. intros u' o Hu Ho. apply (He u'); auto. right; auto. }
+    split; auto. split; [congruence|]. split; [congruence|]. split; [congruence|].
+    split; [eapply incl_tran; eauto|]. intros _. apply A2; auto.
+Qed.
+
+Lemma pass3_one_W ck s a : W nonRem ck s -> In a (queue s) ->
+  let s' := pass3_one s a in
+  W nonRem ck s' /\ queue s' = queue s /\ incl (aconns s) (aconns s') /\
+  (akind a = KConn -> In (act_obj a) (aconns s')).
+Proof.
+  intros M Ha. destruct a as [o|o|o|c ups]; cbn [pass3_one];
+    try (repeat split; auto using incl_refl; cbn; discriminate).
+  assert (Hc : In c (heap s)) by (apply (q_obj (w_q M) (AConn c ups)); auto; cbn; discriminate).
+  assert (Cc : In c (cset s)) by (apply (q_cs (w_q M) (AConn c ups)); auto).
+  assert (Ne : ups <> []) by (intros ->; apply (q_ne (w_q M) _ Ha)).
+  rewrite deref_in by auto.
+  destruct (@update_end_loop ck c ups s M Hc Cc) as (M2 & Q2 & H2 & C2 & A2 & B2).
+  { intros u o Hu Ho. apply (q_ends (w_q M) (AConn c ups)); auto.
+    cbn [act_end_ids]. apply in_flat_map. eauto. }
+  repeat split; auto.
+Qed.
+
+Lemma pass3_loop ck : forall r s, W nonRem ck s -> incl r (queue s) ->
+  let s' := fold_left pass3_one r s in
+  W nonRem ck s' /\ queue s' = queue s /\ incl (aconns s) (aconns s') /\
+  (forall a, In a r -> akind a = KConn -> In (act_obj a) (aconns s')).
+Proof.
+  induction r as [|a r IH]; cbn [fold_left]; intros s M Hr.
+  - repeat split; auto using incl_refl. intros a [].
+  - destruct (@pass3_one_W ck s a M) as (M1 & Q1 & A1 & B1); [apply Hr; left; auto|].
+    destruct (IH (pass3_one s a) M1) as (M2 & Q2 & A2 & B2).
+    { rewrite Q1. intros x Hx. apply Hr; right; auto. }
+    split; auto. split; [congruence|]. split; [eapply incl_tran; eauto|].
+    intros b [<-|Hb] K; auto.
+Qed.
+
+(* ---- the whole of processActions ---- *)
+Lemma W_clear_queue qk s : W qk noneK s -> Inv (set_queue s []).
+Proof.
+  intros M. unfold set_queue. constructor; sproj; try apply M.
+  - apply QOK_nil.
+  - intros x Hx. destruct (w_cover M x Hx) as [H|[H|[a [_ [_ []]]]]]; auto.
+Qed.
+
+Lemma process_Inv s : Inv s -> Inv (process true s).
+Proof.
+  intros I. unfold process. destruct (queue s) as [|a0 q0] eqn:Eq; auto. rewrite <- Eq. clear a0 q0 Eq.
+  rewrite sort_derefs_id by (intros a Ha; apply (q_obj (w_q I)); auto; exact Logic.I).
+  assert (M0 : Mid s).
+  { apply W_weaken with allK pendK; auto.
+    - intros; exact Logic.I.
+    - intros k [->| ->]; discriminate. }
+  assert (M1 : Mid (pass1 true s)).
+  { unfold pass1. apply pass1_loop; auto.
+    - intros a Ha _. apply (q_obj (w_q I)); auto. exact Logic.I.
+    - apply (q_nd (w_q I)). }
+  destruct (@pass2_loop nonRem (queue (pass1 true s)) (pass1 true s) M1 (incl_refl _)) as (M2 & Q2 & A2 & B2).
+  fold (pass2 (pass1 true s)) in *.
+  assert (M2' : W nonRem connK (pass2 (pass1 true s))).
+  { apply W_cover_change with nonRem; auto. intros a Ha K. rewrite Q2 in Ha.
+    destruct a; cbn in *; auto; try (right; left; apply (B2 _ Ha); cbn; auto).
+    exfalso; apply K; auto. }
+  destruct (@pass3_loop connK (queue (pass2 (pass1 true s))) (pass2 (pass1 true s)) M2' (incl_refl _)) as (M3 & Q3 & A3 & B3).
+  fold (pass3 (pass2 (pass1 true s))) in *.
+  apply W_clear_queue with nonRem.
+  apply W_cover_change with connK; auto. intros a Ha K. rewrite Q3 in Ha.
+  right; right. apply B3; auto.
+Qed.
